@@ -216,8 +216,8 @@ def whileLoop (cond : EvalM Val) (body : EvalM Flow) : Nat → EvalM Flow
     | .ret => pure .ret
 
 /-- The body run and the re-entry branch of `FORStatement::doit`, generic in how the body is run:
-after the body, the iterator *variable* is read again, and the loop continues with `cur + step`
-while that value — computed without wrap-around, as the repaired code does — stays inside
+after the body, the iterator *variable* is read again (a null there raises NOT_INTEGER), and the loop
+continues with `cur + step` while that value — computed without wrap-around, as the repaired code does — stays inside
 [min, max]. -/
 def forLoop (body : EvalM Flow) (v : String) (min max step : Int64) : Nat → EvalM Flow
   | 0 => oof
@@ -228,7 +228,8 @@ def forLoop (body : EvalM Flow) (v : String) (min max step : Int64) : Nat → Ev
     | .ret => pure .ret
     | .norm | .cont =>
       let s ← getSt
-      let cur ← liftM (lookupVar s.vars v).asInt
+      -- the body can have set the (type safe) control variable to null: NOT_INTEGER, else read the integer
+      let cur ← liftM (if (lookupVar s.vars v).isNull then Res.err Gen.EXC_RT_NOT_INTEGER else (lookupVar s.vars v).asInt)
       let nxt : Int := cur.toInt + step.toInt
       if (step > 0 && nxt > max.toInt) || (step < 0 && nxt < min.toInt) then pure .norm
       else do
